@@ -14,6 +14,18 @@ THEOREMS = [
     "TornadoModel.C05.never_both",
     "TornadoModel.C05.notify_spec",
     "TornadoModel.C05.no_notification_ahead",
+    "TornadoModel.C05.go_dinv",
+    "TornadoModel.C05.step_d",
+    "TornadoModel.C05.exec_d",
+    "TornadoModel.C05.data_prefix",
+    "TornadoModel.C05.delivered_le_sent",
+    "TornadoModel.C05.go_rank",
+    "TornadoModel.C05.step_good",
+    "TornadoModel.C05.exec_good",
+    "TornadoModel.C05.never_stuck",
+    "TornadoModel.C05.settle_done",
+    "TornadoModel.C05.settle_decreases",
+    "TornadoModel.C05.close_terminates",
 ]
 TRUSTED = [
     "asyncio callback ordering and tornado.gen.with_timeout/convert_yielded as abstracted by the model "
@@ -39,9 +51,14 @@ CLAUSES = {
     "a delegate that has received headers is told exactly once finish or close, never both":
         "notify_exactly_once + never_both + notify_spec (all configurations, all event sequences; invariant exec_inv)",
     "received chunks concatenate to a prefix of the sent body, whole body when finished":
-        "tie only: data_prefix_goal stated; Spec.dataOk + byte-level prefix applied to the implementation on every case",
+        "data_prefix + delivered_le_sent (all configurations, all event sequences; bytes-consumed invariant exec_d: delivered + "
+        "payload of the reads still to do = payload sent while the response is unwritten); the byte-level prefix itself "
+        "(the model counts bytes) is applied to the implementation on every case (Spec.dataOk + prefix comparison)",
     "closing all server connections completes":
-        "tie only: close_terminates_goal stated; every case ends with close_all_connections() under a virtual-time watchdog",
+        "close_terminates (from every reachable state, closeall then settling the application awaitables reaches done within "
+        "fuelFor rounds) + settle_decreases (ranking function M) + never_stuck (the model's fuel always suffices); assumes "
+        "the application's awaitables settle (events resH/resD); every case also ends with close_all_connections() under a "
+        "virtual-time watchdog",
 }
 PARALLEL = True
 CASE_TIMEOUT = 300    # a case takes milliseconds; the limit only has to survive a heavily loaded machine
